@@ -140,11 +140,12 @@ def run_impl(case):
             try:
                 res[form] = ("ok", tc.apply_op(obj_of[form], op, inplace=(form == "inplace")))
             except Exception as e:
-                res[form] = ("err", type(e).__name__)
+                res[form] = ("err", f"{type(e).__name__}: {str(e)[:120]}")
         if mesh_step:
             res["copy"] = ("skip", None)
         elif res["copy"][0] != res["inplace"][0]:
-            fail(f"{where}: copying form {res['copy'][0]} but in-place form {res['inplace'][0]}")
+            why = res["copy"][1] if res["copy"][0] == "err" else res["inplace"][1]
+            fail(f"{where}: copying form {res['copy'][0]} but in-place form {res['inplace'][0]} ({why})")
         if not mesh_step and not same_state(tc.snap(obj_of["copy"]), before, rel=0):
             fail(f"{where}: the copying form modified the receiver")
         ip_obj = obj_of["inplace"]
@@ -195,7 +196,7 @@ def run_impl(case):
             steps.append(dict(st="ok", ret=ret, snap=tc.to_json(ret)))
             cur = ret
         else:
-            steps.append(dict(st="err"))
+            steps.append(dict(st="err", why=st[1]))
     for k, (o, sn) in enumerate(tracked):
         if not same_state(tc.snap(o), sn, rel=0):
             fail(f"object #{k} created during the history was modified by a later step on another object "
@@ -221,7 +222,7 @@ def compare(case, obs, rs):
     res = rs[0]
     for si, (st, mr) in enumerate(zip(obs["steps"], res)):
         if (st["st"] == "ok") != ("ok" in mr):
-            dis.append(f"step {si} {case['ops'][si]}: impl {st['st']} vs model {mr if 'ok' not in mr else 'ok'}")
+            dis.append(f"step {si} {case['ops'][si]}: impl {st['st']} ({st.get('why', '')}) vs model {mr if 'ok' not in mr else 'ok'}")
             return dis  # later steps act on different objects
         if st["st"] == "ok":
             cmp_json(f"step {si} returned", st["snap"], mr["ok"]["ret"], dis)
@@ -283,6 +284,11 @@ def nontrivial(case, obs):
 
 
 def known(case, text):
+    # D18: the copying form of a mesh step re-runs the subregion setter, whose absolute 1e-12 alignment tolerance
+    # rejects cell-aligned subregions once coordinates carry rotation rounding at larger magnitudes
+    if case["obj"].get("subs") and ("is not aligned with the mesh" in text or "cannot be divided into" in text
+                                    or "is not in the mesh region" in text):
+        return "D18"
     return None
 
 
